@@ -123,15 +123,21 @@ def run(ctx):
     ctx.log('%d histories (%d from TLC)' % (len(items), sum(1 for i in items if i[1] != 'rnd')))
     traces = rc.record(items)
     ctx.log('recorded %d traces, %d lines' % (len(traces), sum(len(t['lines']) for t in traces)))
-    return _validate_and_judge(ctx, traces)
+    return _validate_and_judge(ctx, traces, full_run=True)
 
 
-def _validate_and_judge(ctx, traces):
+def _validate_and_judge(ctx, traces, full_run=False):
     verdicts, stats = rc.validate(traces, timeout=300 if ctx.quick else 1500)
     ctx.cmds.append(stats['cmd'])
     total = sum(len(t['lines']) - 1 for t in traces)
     if len(verdicts) != total:
         raise tlc.MachineryError('trace spec judged %d of %d lines' % (len(verdicts), total))
+    if full_run:
+        # vacuity control on the generated batch as a whole
+        seen = collections.Counter(f for v in verdicts for f in v['ex'])
+        for flag in ('C19', 'trait', 'replace', 'accept', 'reject'):
+            if not seen[flag]:
+                raise tlc.MachineryError('vacuity: no generated request exercised %r' % flag)
     return judge(ctx, traces, verdicts)
 
 
